@@ -542,6 +542,16 @@ def locate(fn, loc):
         if len(hits) <= loc[1]:
             raise Fail("%s: no `for … in range(<expr>)` loop #%d" % (fn.name, loc[1]), fn)
         return hits[loc[1]].iter.args[0]
+    if kind == "fresh_dict":
+        # pin: `target` is assigned a fresh empty dict literal (per-object state, not shared between objects)
+        v = assign_value(fn, loc[1], 0)
+        if not (isinstance(v, ast.Dict) and not v.keys):
+            raise Fail("%s: %s is no longer assigned a fresh `{}` (it is `%s`): per-object state may be shared" % (fn.name, loc[1], ast.unparse(v)), v)
+        n_assign = sum(1 for n in ast.walk(fn) if isinstance(n, (ast.Assign, ast.AnnAssign)) and
+                       any(ast.unparse(t) == loc[1] for t in (n.targets if isinstance(n, ast.Assign) else [n.target])))
+        if n_assign != 1:
+            raise Fail("%s: %s is assigned %d times" % (fn.name, loc[1], n_assign), fn)
+        return ast.copy_location(ast.Constant(True), v)
     if kind == "slice_upper":
         # upper bound of the nth (source order) slice `base[lo:hi]`
         hits = sorted((n for n in ast.walk(fn) if isinstance(n, ast.Subscript) and isinstance(n.slice, ast.Slice) and ast.unparse(n.value) == loc[1]
